@@ -77,6 +77,8 @@ class C01(Spec):
                         segsets.append([m[:a], m[a:b], m[b:]])
             for si, segs in enumerate(segsets):
                 line = G.case_line("P", kind, 1 << 20, segs)
+                if line in self.groups:
+                    continue   # the same message generated twice: keep its first group
                 self.groups[line] = (gid, si == 0, complete, len(segs))
                 cases.append(line)
         return cases
@@ -98,6 +100,8 @@ class C01(Spec):
             if not g or i.startswith(("CRASH", "HANG", "SKIPPED")):
                 continue
             gid, is_whole, complete, nsegs = g
+            if gid not in whole:
+                continue
             wc, wi = whole[gid]
             if wi.startswith(("CRASH", "HANG", "SKIPPED")):
                 continue
